@@ -14,7 +14,7 @@ from tools.props import c03_gen as G
 from tools.props import c03_hist as H
 
 MANIFEST = {
-    "level_text": "Coq theorems (Properties/C03.v, no axioms) about a Gallina transcription of parse_and_cache_all_files (walk, acceptance test on the directory components of the path below the project path, files that cannot be read or parsed are reported and skipped), the per-file loop under every iteration order of the AST cache, is_tauri_command on top-level Item::Fn, and one wrapper per CommandInfo: for every well-formed layout, every spelling of the project path and every file order, with no known-finding premise, the wrapper list is a permutation of the component-wise specification (annotated top-level functions of .rs files with no target/.git directory component); an unparsable or non-UTF-8 file removes exactly its own wrappers. The build-script route is a small state machine over the output directory (C03Discover.build_history: regeneration, generation-cache hit that leaves commands.ts, removal when no command is left); C03_build_history: after every run of every history of source trees, from any previous state, the wrappers are those of the specification for the tree of that run. The two formerly recorded defects (C03-1 root below target/.git, C03-2 non-UTF-8 file aborts the run) are repaired; their witnesses are positive theorems in Coq and ordinary regression cases of the corpus. The model is tied to /repo on every run: the real CLI (both modes) and the library analysis run on generated directory layouts and are compared with the extracted model; commands.ts is read back with the extracted module parser and judged by the extracted oracle.",
+    "level_text": "Coq theorems (Properties/C03.v, no axioms) about a Gallina transcription of parse_and_cache_all_files (walk, acceptance test on the directory components of the path below the project path, files that cannot be read or parsed are reported and skipped), the per-file loop under every iteration order of the AST cache, is_tauri_command on top-level Item::Fn, and one wrapper per CommandInfo: for every well-formed layout, every spelling of the project path and every file order, with no known-finding premise, the wrapper list is a permutation of the component-wise specification (annotated top-level functions of .rs files with no target/.git directory component); an unparsable or non-UTF-8 file removes exactly its own wrappers. The build-script route is a small state machine over the output directory (C03Discover.build_history: regeneration, generation-cache hit that leaves commands.ts, removal when no command is left); C03_build_history: after every run of every history of source trees, from any previous state, the wrappers are those of the specification for the tree of that run. C03_history extends this to both routes (CLI run_generate and build script), forced or not, mixed in one history and returning to earlier trees, on the complement of the recorded class C03-3 (a CLI run that discovers no command over the wrappers of an earlier run: the early return leaves the stale commands.ts; refuted in Coq with a computed witness). What stands before the items of a source text (byte order mark, shebang line, inner attributes, comments, frontmatter) is modelled as far as the entry point syn::parse_file treats it specially (parse_file_accepts), the specification says independently which prologues a Rust source file may have (rust_prologue_ok); proved equal for texts with at most one leading byte order mark (content_ok, part of layout_ok). The two formerly recorded defects (C03-1 root below target/.git, C03-2 non-UTF-8 file aborts the run) are repaired; their witnesses are positive theorems in Coq and ordinary regression cases of the corpus. The model is tied to /repo on every run: the real CLI (both modes) and the library analysis run on generated directory layouts and are compared with the extracted model; commands.ts is read back with the extracted module parser and judged by the extracted oracle.",
     "level_note": "Trusted: Coq kernel; the tie between hand-written model and code is differential (bounded); syn is outside the model (a file is Parsed items / Unparsable / NotUtf8 and Path::strip_prefix(project_path) of a walked path is taken to give back the components below the root, which holds for every path WalkDir builds by joining; and the python printer renders items to Rust source); the AST cache (a HashMap keyed by path) is a list of the walked files and its iteration order an arbitrary permutation, which is exact when sibling names are distinct (layout_ok); Tera is modelled by one wrapper record per CommandInfo (the token-level template transcription of Model/Pipeline.v is related to it by a computed example and by the differential check, not by a general proof); the translated return type is whatever Model/C03RetType.rt_ret_ts computes (own transcription of parse_type_structure with top-level comma splitting, the default type visitor and add_types_prefix with the recursive array branch; that the translation is the right one is C05); the Rust name of a command declared with a raw identifier is the identifier without r# (C03RetType.unraw in the model, C03Spec.rust_name in the specification, proved equal). Symbolic links below the project path are inside the model (NLink: a link that resolves to a regular file is an .rs file under the name and place of the link, for the code through path.is_file()/read_to_string and for the specification by decision; links to directories are not followed by WalkDir and the specification reads the recursion of the property text as the directory tree proper, dangling links are no files). A project path that itself is or passes through a symbolic link, unreadable directories, a project path that is a file and Windows path separators are outside the model. Entry names are byte strings in the model (str = list of bytes), so names that are not valid UTF-8 are inside; CommandInfo.file_path is compared after to_string_lossy, which the python side applies to the bytes of the model (bytes.decode(utf-8, replace), trusted to agree with Rust). The cache-hit condition of build_history compares the CommandInfo fields only; the real key is finer (C08), every real hit is a model hit, and both branches give the same wrappers (cache_hit_same).",
     "technique": "Rocq/Coq proof over hand-written model + correspondence check (extracted OCaml vs real CLI and Rust harness)",
     "design_ref": "DESIGN.md section 5 C03, section 11 accepted_spec",
@@ -25,7 +25,7 @@ RULE = ("layouts: random trees of 1-8 files, depth <= 4, directory names drawn f
         "inline mods, other items; command attribute spellings, near-miss attributes, other attributes in any order), "
         "function names incl. raw identifiers (r#type, r#match, r#move), return types over String/bool/i32/u8/f64/()/User/Item under Result/Option/Vec/HashMap/BTreeMap/tuples (depth <= 2, incl. Ok arms and tuple elements that print a comma and arrays of unions), "
         "x root spellings (absolute, relative, ./, ., trailing slash, roots below or named target/.git - the former class C03-1, now ordinary inputs); "
-        "malformed: the same with mostly unparsable/non-UTF-8/odd files (non-UTF-8 .rs files, the former class C03-2, are ordinary inputs); histories: the build-script entry point BuildSystem::generate_at_build_time (harness binary, cwd = project root with tauri.conf.json) run 2-5 times into one output directory over source trees related by edits {same, body-only, comment, add/remove/rename command, change return type, break file, move file, remove all}: exhaustive over all sequences of <= 2 edits from 5 kinds followed by an unchanged run on a fixed project in both modes (60) + 60 / 600 random ones, wrappers judged after EVERY run; paths: exhaustive enumeration of one command at every "
+        "malformed: the same with mostly unparsable/non-UTF-8/odd files (non-UTF-8 .rs files, the former class C03-2, are ordinary inputs); parsed files with prologues (25 %: shebang, BOM, BOM+shebang, inner attributes, doc comments, comments, blank lines, frontmatter, in accepted and rejected orders; files that are only a prologue) and CRLF line endings (10 %); histories (CLI route with tauri.conf.json in the working directory as well, runs plain / --force / force: true in the configuration, trees returning to earlier ones; exhaustive: all 3-run sequences over two fixed trees x all force patterns x both routes = 128): the build-script entry point BuildSystem::generate_at_build_time (harness binary, cwd = project root with tauri.conf.json) run 2-5 times into one output directory over source trees related by edits {same, body-only, comment, add/remove/rename command, change return type, break file, move file, remove all}: exhaustive over all sequences of <= 2 edits from 5 kinds followed by an unchanged run on a fixed project in both modes (60) + 60 / 600 random ones, wrappers judged after EVERY run; paths: exhaustive enumeration of one command at every "
         "directory path of length <= 2 over {target,.git,src,targets,git} x 4 file names x 7 root spellings. Every case runs the "
         "CLI in mode none and zod and the library analysis. Non-trivial: at least one function carrying a command attribute "
         "somewhere in the tree; distinct = distinct case values")
@@ -226,7 +226,7 @@ def run(rep):
         for i in range(0, len(cs), chunk):
             rep.add(name, evaluate(cs[i:i + chunk], "c03-" + name))
     # build-script entry point, histories of runs into one output directory
-    hists = H.small_scope(rng) + [H.gen_history(rng) for _ in range(600 if thorough else 60)]
+    hists = H.small_scope(rng) + H.force_and_return() + [H.gen_history(rng) for _ in range(800 if thorough else 80)]
     for c in hists:
         H.stats(c, dist)
     rep.add("histories", H.evaluate(hists, "c03-hist"))
